@@ -308,8 +308,8 @@ def oracle_rpe(line, out):
 # ------------------------------------------------------------------ client-and-server endpoint (rpx)
 
 RESP_GENUINE = "qN"
-RESP_FORGED = "TRZ"
-RPX_ALPHABET = ["g1", "g3", "e2", "f4", "q2", "N4", "N6", "T5", "R6", "R3", "Z7"]
+RESP_FORGED = "TRZW"
+RPX_ALPHABET = ["g1", "g3", "e2", "f4", "q2", "N4", "N6", "T5", "R6", "R3", "Z7", "W1"]
 
 
 def rpx_ok(ops):
@@ -320,7 +320,7 @@ def rpx_ok(ops):
         if o[0] == "q":
             seen_q = True
             nq += 1
-        elif o[0] in "NTR" and not seen_q:
+        elif o[0] in "NTRW" and not seen_q:
             return False
     return nq <= 4
 
@@ -352,7 +352,7 @@ def rpx_random(r):
         if (not have_q and c < 0.5) or (c < 0.22 and nq < 3):
             kind = "q"
         elif c < 0.55 and have_q:
-            kind = r.choice("NNNTTRR")
+            kind = r.choice("NNNTTRRW")
         elif c < 0.62:
             kind = "Z"
         elif c < 0.75:
@@ -362,7 +362,7 @@ def rpx_random(r):
         else:
             kind = "g"
         s = near(r, last, w)
-        if kind in "PRZ":
+        if kind in "PRZW":
             s = min(s, SEQ_MAX)
         elif s >= SEQ_MAX:
             s = SEQ_MAX - 1 - r.randrange(0, 3)
